@@ -25,8 +25,8 @@ ASSUMPTIONS = [
     "termination is decided on logical steps (sys.monitoring PY_START budget), wall-clock only as watchdog",
 ]
 PLAN = {"quick": dict(topologies=1600, D=12), "thorough": dict(topologies=12000, D=150)}
-FLOORS = {"quick": {"constructions": 10000, "depth_values_checked": 60000, "values_at_max_depth": 8000, "codec_roundtrips": 50000, "topologies_with_direct_edges": 150, "hybrid_inputs": 2500, "alias_depth_values_checked": 1200},
-          "thorough": {"constructions": 80000, "depth_values_checked": 500000, "values_at_max_depth": 70000, "codec_roundtrips": 400000, "topologies_with_direct_edges": 1000, "hybrid_inputs": 30000, "alias_depth_values_checked": 10000}}
+FLOORS = {"quick": {"retries_after_rejection": 15000, "constructions": 10000, "depth_values_checked": 60000, "values_at_max_depth": 8000, "codec_roundtrips": 50000, "topologies_with_direct_edges": 150, "hybrid_inputs": 2500, "alias_depth_values_checked": 1200},
+          "thorough": {"retries_after_rejection": 150000, "constructions": 80000, "depth_values_checked": 500000, "values_at_max_depth": 70000, "codec_roundtrips": 400000, "topologies_with_direct_edges": 1000, "hybrid_inputs": 30000, "alias_depth_values_checked": 10000}}
 
 
 def is_cyclic(n, es):
@@ -104,6 +104,22 @@ def hybridize(tp, i, w, rng, depth=0):
         else:
             out[k] = x
     return out, planted
+
+
+def payload_nodes(m, depth=0, out=None):
+    """The dict levels of a wire form below the root that carry the payload member 'v' (deepest last)."""
+    out = [] if out is None else out
+    if depth > 400:
+        return out
+    if isinstance(m, dict):
+        if depth >= 1 and "v" in m:
+            out.append(m)
+        for e in m.values():
+            payload_nodes(e, depth + 1, out)
+    elif isinstance(m, (list, tuple)):
+        for e in m:
+            payload_nodes(e, depth + 1, out)
+    return out
 
 
 def canaries(sh):
@@ -304,6 +320,33 @@ def run_shard(sh):
                                 pass
                             except Exception as e:  # noqa: BLE001
                                 sh.violation("level-passed-through-raw", value=short(hyb, 300), observed=f"raised {type(e).__name__}: {e}"[:200], **rec)
+                    # a rejected input, corrected IN PLACE and submitted again (the same container objects): the second attempt is an
+                    # ordinary valid input
+                    nodes = payload_nodes(m)
+                    if nodes and d >= 1:
+                        node = nodes[-1] if rng.random() < 0.6 else rng.choice(nodes)
+                        keep = node["v"]
+                        node["v"] = rng.choice(["not-a-number", [], {"x": 1}, object()])
+                        try:
+                            with quiet():
+                                um(m)
+                            rejected = False
+                        except RecursionError:
+                            rejected = None
+                        except Exception:  # noqa: BLE001
+                            rejected = True
+                        node["v"] = keep
+                        if rejected:
+                            sh.count("retries_after_rejection")
+                            try:
+                                with quiet():
+                                    ur = um(m)
+                                if not same(ur, v):
+                                    sh.violation("retry-after-rejection-differs", value=short(m, 300), observed=short(ur, 300), expected=short(v, 200), **rec)
+                            except RecursionError:
+                                pass
+                            except Exception as e:  # noqa: BLE001
+                                sh.violation("retry-after-rejection-differs", value=short(m, 300), observed=f"raised {type(e).__name__}: {e}"[:300], **rec)
                     try:
                         with quiet():
                             u2 = cdc.decode(cdc.encode(v))
